@@ -1,10 +1,11 @@
 """C06 -- uplink frame counters never repeat within a session."""
 import re
-from .. import core, machist, macstage, lw, adevhist
+from .. import core, machist, macstage, lw, adevhist, ndevhist
 
 ID = "C06"
 THEOREMS = ["C06_send_uses_current_counter", "C06_window_close_advances_or_expires", "C06_receive_never_rewinds",
-            "C06_async_send_concludes_the_uplink", "C06_async_counters_strictly_increase", "C06_async_never_rewinds"]
+            "C06_async_send_concludes_the_uplink", "C06_async_counters_strictly_increase", "C06_async_never_rewinds",
+            "C06_nb_counters_strictly_increase"]
 KINDS = ["uplink frame counter", "uplink MIC/encryption counter"]
 NWK, APP, ADDR = bytes([2] * 16), bytes([1] * 16), 5
 TX = re.compile(r"tx\[(\d+)/(\d+)/(\d+) pw=(-?\d+) ([0-9a-f]+)\]")
@@ -118,6 +119,9 @@ def run(rep, tier, rng):
     # the asynchronous front-end is modelled (Model/AsyncDev.v): model and implementation on the same histories
     adev = [l for l in fe if l.startswith("adev")] + adevhist.histories(rng.fork("adev"), tier)
     core.diff_stage(rep, "X:C06:async-front-end", adev, lambda c, i, m: frontend_oracle(c, i) if "session=" in c else None)
+    ndev = [l for l in fe if l.startswith("ndev")] + ndevhist.histories(rng.fork("ndev"), tier)
+    core.diff_stage(rep, "X:C06:nb-front-end", ndev, lambda c, i, m: frontend_oracle(c, i) if "session=" in c else None)
+    fe = fe + [l for l in ndev + adev if "session=" in l and l not in set(fe)]
     io = core.run_lines(core.harness_bin(), fe)
     bad = 0
     frames = 0
